@@ -399,8 +399,9 @@ def diff_single_outputs(a, b, path="/cells/*/outputs/*", config=None):
         tmp_data = b.pop('data')
         b_conj = copy.deepcopy(b)
         b.data = tmp_data
-        # Only diff outputs without data:
-        dd_conj = diff(a_conj, b_conj)
+        # Only diff outputs without data (pass on path and config, so that
+        # e.g. ignoring the outputs' metadata has an effect):
+        dd_conj = diff(a_conj, b_conj, path=path, config=config)
         if dd_conj:
             for e in dd_conj:
                 di.append(e)
@@ -594,6 +595,17 @@ def set_notebook_diff_targets(sources=True, outputs=True, attachments=True,
                               metadata=True, identifier=True, details=True):
     """Configure the notebook differs to include/ignore various changes."""
 
+    # Keys of a cell to filter out. The id is an atomic value and a cell can
+    # gain or lose its attachments as a whole, neither of which goes through
+    # the differ of the key's own path
+    cell_keys = ()
+    if not details:
+        cell_keys += ('execution_count',)
+    if not identifier:
+        cell_keys += ('id',)
+    if not attachments:
+        cell_keys += ('attachments',)
+
     config = {
         '/cells/*/source': not sources,
         '/cells/*/outputs': not outputs,
@@ -602,9 +614,12 @@ def set_notebook_diff_targets(sources=True, outputs=True, attachments=True,
         '/cells/*/id': not identifier,
         '/cells/*/metadata': not metadata,
         '/cells/*/outputs/*/metadata': not metadata,
-        '/cells/*': False if details else ('execution_count',),
+        '/cells/*': cell_keys or False,
         '/cells/*/outputs/*': False if details else ('execution_count',),
     }
+    # Key filters wrap the differ that is currently installed,
+    # so reset those paths before installing new filters
+    set_notebook_diff_ignores({'/cells/*': False, '/cells/*/outputs/*': False})
     set_notebook_diff_ignores(config)
 
 
